@@ -9,9 +9,9 @@ from .runner import jsonable
 
 class Harness:
     def __init__(self, patches=None, shim_map=None, timeout_ms=60000, extra_builtins=None, max_witnesses=6,
-                 max_violations=12):
+                 max_violations=12, solver_opts=None):
         self.loader = _loader.Loader(shim_map=shim_map, patches=patches, extra_builtins=extra_builtins)
-        self.ctx = core.Ctx(timeout_ms=timeout_ms)
+        self.ctx = core.Ctx(timeout_ms=timeout_ms, solver_opts=solver_opts)
         core.set_ctx(self.ctx)
         self.paths = 0
         self.obligations = 0
@@ -54,11 +54,11 @@ class Harness:
         """the path itself is the violation (e.g. an escaping exception)"""
         return self.claim(False, key, what, case_fn)
 
-    def witness(self, case_fn, force=False):
+    def witness(self, case_fn, force=False, extra=()):
         """model of the current path condition -> concrete (inputs, expected)"""
         if len(self.witnesses) >= self.max_witnesses and not force:
             return
-        m = core.current_model()
+        m = core.current_model(extra)
         if m is None:
             return
         self.witnesses.append(jsonable(case_fn(m)))
